@@ -316,6 +316,13 @@ func (fc *FuncContract) Apply(fx *sym.FnExec, fr *sym.Frame, fn *ssa.Function, a
 			}
 		}
 	}
+	// the callee's allocations are unknown to the caller except through its ensures
+	if !fc.Flags["pure"] {
+		st.Ghost["alloc"] = fx.Cx.Fresh("alloc", BV(64))
+		if pa, ok := pre.Ghost["alloc"]; ok {
+			st.Assume(ULe(pa, st.Ghost["alloc"]))
+		}
+	}
 	// results
 	res := fn.Signature.Results()
 	var ret sym.Value
